@@ -16,7 +16,7 @@ structure GramOK (G : Gram) : Prop where
   led_kind : ∀ o j kd, G.led o = some (j, kd) →
     (kd = .left → G.lkind j = some .left) ∧ (kd = .none → G.lkind j = some .none) ∧
     (kd = .typed → G.lkind j = some .typed) ∧ ((∃ c e, kd = .bracket c e) → G.lkind j = some .postfix) ∧
-    (kd = .key → G.lkind j = some .postfix)
+    (kd = .key → G.lkind j = some .postfix) ∧ (kd = .arrow → G.lkind j = some .left)
 
 /-- what the accumulated left operand of `ebnfTail` satisfies at level `k` -/
 def TailInv (G : Gram) (k : Nat) (l : Tree) : Prop :=
@@ -187,7 +187,7 @@ theorem ebnf_sound_aux (G : Gram) (hG : GramOK G) : ∀ f,
                   · simp at h
                 · simp at h
             · -- key
-              have hpk := hkinds.2.2.2.2 rfl
+              have hpk := hkinds.2.2.2.2.1 rfl
               split at h
               · rename_i r rest' hr
                 split at h
@@ -198,6 +198,28 @@ theorem ebnf_sound_aux (G : Gram) (hG : GramOK G) : ∀ f,
                   have h2 := iht j lk _ _ _ _ hkt hlk h hw hi
                   refine ⟨h2.1, h2.2.1, ?_⟩
                   rw [h2.2.2, ← h1.2.2]; simp [Tree.yield]
+                · simp at h
+              · simp at h
+            · -- arrow
+              have hlk' := hkinds.2.2.2.2.2 rfl
+              split at h
+              · rename_i s rest1 hs
+                split at h
+                · rename_i hspec
+                  split at h
+                  · rename_i a rest2 ha
+                    split at h
+                    · rename_i hgrp
+                      have h1 := ihe G.top _ _ _ (Nat.le_refl _) hs
+                      have h1' := ihe G.top _ _ _ (Nat.le_refl _) ha
+                      have hw : wf true G (.arrow o l s a) = true := by
+                        simp [wf, hg, hlvl, hwl, h1.1, h1'.1, hspec, hgrp]
+                      have hi : TailInv G j (.arrow o l s a) := Or.inr ⟨by simp [lvl, hg], Or.inl hlk'⟩
+                      have h2 := iht j lk _ _ _ _ hkt hlk h hw hi
+                      refine ⟨h2.1, h2.2.1, ?_⟩
+                      rw [h2.2.2, ← h1.2.2, ← h1'.2.2]; simp [Tree.yield]
+                    · simp at h
+                  · simp at h
                 · simp at h
               · simp at h
           · simp at h; obtain ⟨rfl, rfl⟩ := h; exact ⟨hwl, hlvl, rfl⟩
@@ -288,7 +310,9 @@ theorem gramOf_ok (levels : List Level) (ep : Bool) (syms : List String) : GramO
           simp [hL, hk]
         rw [hlk]
         cases lk <;> simp [kindOf] at hkd
-        · subst hkd; simp
+        · split at hkd
+          · simp at hkd; subst hkd; simp
+          · simp at hkd; subst hkd; simp
         · subst hkd; simp
         · subst hkd; simp
         · split at hkd
